@@ -16,7 +16,7 @@ def lifecycle(draw):
   ops = []
   for _ in range(n):
     k = draw(st.sampled_from(["start", "start", "stop", "stop_quietly", "subscribe", "publish", "publish",
-                              "settle", "start_object", "post", "clear", "object_publish"]))
+                              "settle", "start_object", "post", "clear", "object_publish", "race"]))
     if k in ("subscribe", "publish"):
       ops.append([k, draw(st.sampled_from(SIGS))])
     else:
@@ -36,7 +36,9 @@ class C13(Prop):
   thorough_examples = 4000
   rule = ("Generated lifecycles of the real ActiveFabric under the deterministic scheduler: up to 12 "
           "operations from start, stop, clear, subscribe(recorder, signal), publish(signal), settle, "
-          "start an ActiveObject, post to it; then stop, start, and a final round that subscribes a "
+          "start an ActiveObject, post to it, and 'race': stop() and start() called at the same time from two "
+          "threads (afterwards: never two delivery threads of one kind alive, and a following stop() ends "
+          "everything - which call wins is not asserted); then stop, start, and a final round that subscribes a "
           "fresh recorder, publishes and settles. Delivery threads are identified black-box as the "
           "threads spawned during start() calls. Oracle: at every settle at most two of them are "
           "alive; is_alive() is true exactly when two are alive after a start() and false after a "
@@ -45,7 +47,7 @@ class C13(Prop):
           "not separated from its subscription by a clear()) is delivered exactly once per kind - "
           "never twice, which a second pair of delivery threads would cause... and after the final "
           "stop(); start() the fresh subscription receives the fresh publication exactly once. "
-          "Non-trivial: the history calls start() while the fabric is already running; distinct = "
+          "Non-trivial: the history calls start() while the fabric is already running, or races stop() with start(); distinct = "
           "distinct case digests.")
   assumptions = ["delivery between a clear() on a running fabric and the next stop/start is not asserted",
                  "publications made while the fabric is stopped may be delivered after a restart or not (0..1)"]
@@ -61,7 +63,7 @@ class C13(Prop):
     for s_ in SIGS + ["VC"]:
       signals.append(s_)
     rec = aocheck.Rec()
-    flags = {"start_while_running": False}
+    flags = {"start_while_running": False, "race": False}
 
     def body(s):
       af = ao.ActiveFabric()
@@ -136,7 +138,43 @@ class C13(Prop):
             raise PropertyViolation("%s: stop() returned but delivery threads are alive" % where, "C13:stop")
           stale.extend(objects)
           del objects[:]
-        elif k == "stop":
+        elif k == "race":
+          # stop() and start() called at the same time from two threads.  Which of them wins is
+          # not asserted; what must hold whatever the interleaving: never two delivery threads
+          # of one kind alive, and a stop() made afterwards ends everything.
+          flags["race"] = True
+          if not running:
+            do_start()
+            running = True
+
+          def racing_start():
+            before = len(s.threads)
+            try:
+              af.start()
+            except AssertionError:
+              # start()'s own assertion ("the thread I made is alive") can find a thread that the
+              # concurrent stop() has already told to end; the race itself, not asserted
+              flags["start_assert"] = True
+            fabric_threads.extend(t for t in s.threads[before:] if t.name not in ("vfstopper", "vfstarter"))
+          def racing_stop():
+            try:
+              af.stop()
+            except AssertionError:
+              # stop()'s own closing assertion ("the threads I joined are dead") can find the
+              # thread a concurrent start() has just made; that is the race itself, not asserted
+              flags["stop_assert"] = True
+          helpers = [ao.Thread(target=racing_stop, name="vfstopper"), ao.Thread(target=racing_start, name="vfstarter")]
+          for h in helpers:
+            h.start()
+          s.quiesce()
+          for kind in ("fifo", "lifo"):
+            live = [t for t in alive_fabric() if kind in t.name]
+            if len(live) > 1:
+              raise PropertyViolation("%s: after stop() and start() raced, %d %s delivery threads are alive" % (
+                where, len(live), kind), "C13:too-many-threads")
+          epoch[0] += 1                  # what was published before the race is not asserted
+          k = "stop"
+        if k == "stop":
           af.stop()
           running = False
           objects.extend(stale)
@@ -146,6 +184,12 @@ class C13(Prop):
               where, [t.name for t in alive_fabric()]), "C13:stop")
           if af.is_alive():
             raise PropertyViolation("%s: is_alive() is true after stop()" % where, "C13:is_alive")
+          if op[0] == "race":
+            s.quiesce()
+            late = [h.name for h in helpers if h.is_alive()]
+            if late or alive_fabric():
+              raise PropertyViolation("%s: after the race and a final stop(), still alive: %s" % (
+                where, late + [t.name for t in alive_fabric()]), "C13:stop")
           # every active object halts at its next wake-up
           for c in objects:
             c.post_fifo(Event(signal=signals["VC"], payload=-1))
@@ -203,7 +247,8 @@ class C13(Prop):
     if s.thread_errors:
       name, e, tb = s.thread_errors[0]
       raise PropertyViolation("thread %s died: %s: %s" % (name, type(e).__name__, e), "C13:thread-error")
-    stats.case(case, flags["start_while_running"], sorted(set("op_" + o[0] for o in case["ops"])))
+    stats.case(case, flags["start_while_running"] or flags["race"],
+               sorted(set("op_" + o[0] for o in case["ops"])) + (["race_stop_saw_new_thread"] if flags.get("stop_assert") else []))
 
 
 PROP = C13
